@@ -12,6 +12,8 @@ def run(check, path):
     with open(path) as f:
         rec = json.load(f)
     case = rec.get("case")
+    if hasattr(check, "replay_case") and case is not None:
+        return check.replay_case(rec)
     if case is None:
         print("replay file has no case")
         return 3
